@@ -769,7 +769,12 @@ func sameKeyIdentity(a, b Value) bool {
 func (e *Exec) typeAssert(fr *frame, instr *ssa.TypeAssert, itf iface) Value {
 	var v Value
 	ok := false
-	if idst, isI := instr.AssertedType.Underlying().(*types.Interface); isI {
+	if tag, isTag := itf.t.(*protoTag); isTag {
+		// a value of the protobuf runtime model: it has the interfaces of protoreflect its kind names
+		if n, isN := instr.AssertedType.(*types.Named); isN && tag.hasInterface(n.Obj().Name()) {
+			v, ok = itf, true
+		}
+	} else if idst, isI := instr.AssertedType.Underlying().(*types.Interface); isI {
 		if itf.t != nil && e.implements(itf.t, idst) {
 			v, ok = itf, true
 		}
